@@ -48,12 +48,13 @@ class RangeV:
 class Space:
     """iteration space: either a concrete python list of values, or n symbolic elements"""
 
-    def __init__(self, concrete=None, n=None, elem=None, keep=None, span=None):
+    def __init__(self, concrete=None, n=None, elem=None, keep=None, span=None, nonempty=None):
         self.concrete = concrete
         self.n = n
         self.elem = elem
         self.keep = keep
         self.span = span  # (series ref, fn k -> candle position) when elements are candles
+        self.nonempty = nonempty
 
 
 def space_of(ex, st, v):
@@ -90,7 +91,7 @@ def space_of(ex, st, v):
         n = z3.simplify(z3.If(v.hi > v.lo, v.hi - v.lo, 0))
         return Space(n=n, elem=lambda k: CandleAt(v.series, z3.simplify(v.lo + k)), span=(v.series, lambda k: v.lo + k))
     if isinstance(v, AList):
-        return Space(n=v.n, elem=v.elem, keep=v.keep, span=v.span)
+        return Space(n=v.n, elem=v.elem, keep=v.keep, span=v.span, nonempty=getattr(v, 'nonempty', None))
     if isinstance(v, GenVal):
         return gen_space(ex, st, v)
     if hasattr(v, "space"):
@@ -317,7 +318,12 @@ def eval_comprehension(ex, node, st, kind):
         return
     if kind == "set":
         raise Unsupported("symbolic set comprehension")
-    yield st, AList(sp.n, sp.elem, sp.keep, sp.span)
+    ne = None
+    if sp.keep is not None:
+        from .counting import make_nonempty
+
+        ne = make_nonempty(ex, st, sp.n, sp.keep)
+    yield st, AList(sp.n, sp.elem, sp.keep, sp.span, ne)
 
 
 # ---------------------------------------------------------------------------- reducers
@@ -410,18 +416,39 @@ def ensure_sign(ex, st, ss, lo, hi):
     if st.ghost.get(key):
         return
     st.ghost[key] = True
-    for how, rel in (("positive", bj > 0), ("nonneg", bj >= 0)):
+    for how, rel in (("zero", bj == 0), ("positive", bj > 0), ("nonneg", bj >= 0)):
         ob = Obligation(id="sigma-sign", kind="lemma", func=ctx.func, label="sigma-sign", pc=list(st.pc),
                         goal=z3.Implies(z3.And(lo <= j, j < hi), rel), qassumes=list(st.qassumes), sums=[("term", j)])
         r = check(ob, ctx, timeout_ms=500, want_model=False, use_cvc5=False, wall_ms=20000, rlimit=1000000)
         if r["status"] == "unsat":
-            if how == "positive":
+            if how == "zero":
+                st.assume(app == 0)
+            elif how == "positive":
                 st.assume(z3.And(app >= 0, z3.Implies(lo < hi, app > 0)))
             elif how == "nonneg":
                 st.assume(app >= 0)
             else:
                 st.assume(app <= 0)
             break
+
+
+def canonical_range(sp, body):
+    """re-index a summation over the candle positions (or loop variable values) its elements come from, so
+    that code and specification sums over the same window get syntactically equal bodies"""
+    lo, hi = z3.IntVal(0), sp.n
+    span = getattr(sp, "span", None)
+    if span is not None:
+        pos = span[1]
+        d0 = z3.simplify(to_int_term(pos(z3.IntVal(0))))
+        d1 = z3.simplify(to_int_term(pos(z3.IntVal(1))) - d0)
+        rel = body
+        if z3.is_int_value(d1) and d1.as_long() == 1:
+            lo, hi = d0, z3.simplify(d0 + sp.n)
+            body = lambda j, rel=rel, d0=d0: rel(z3.simplify(j - d0))
+        elif z3.is_int_value(d1) and d1.as_long() == -1:
+            lo, hi = z3.simplify(d0 - sp.n + 1), z3.simplify(d0 + 1)
+            body = lambda j, rel=rel, d0=d0: rel(z3.simplify(d0 - j))
+    return lo, hi, body
 
 
 def reduce_sum(ex, st, sp, node):
@@ -449,19 +476,7 @@ def reduce_sum(ex, st, sp, node):
             return z3.RealVal(0)
         return z3.If(zbool(kp), to_real_term(e), z3.RealVal(0)) if not (isinstance(kp, bool) and kp) else to_real_term(e)
 
-    # re-index over candle positions when the space spans a series slice (canonical form)
-    lo, hi = z3.IntVal(0), sp.n
-    if sp.span is not None:
-        pos = sp.span[1]
-        d0 = z3.simplify(to_int_term(pos(z3.IntVal(0))))
-        d1 = z3.simplify(to_int_term(pos(z3.IntVal(1))) - d0)
-        rel = body
-        if z3.is_int_value(d1) and d1.as_long() == 1:
-            lo, hi = d0, z3.simplify(d0 + sp.n)
-            body = lambda j, rel=rel, d0=d0: rel(z3.simplify(j - d0))
-        elif z3.is_int_value(d1) and d1.as_long() == -1:
-            lo, hi = z3.simplify(d0 - sp.n + 1), z3.simplify(d0 + 1)
-            body = lambda j, rel=rel, d0=d0: rel(z3.simplify(d0 - j))
+    lo, hi, body = canonical_range(sp, body)
     t = find_or_make_sum(ex, st, body, lo, hi)
     isf = z3.Bool(fresh_name("sum.isf"))
     return SNum(t, isf)
@@ -488,7 +503,25 @@ def reduce_minmax(ex, st, sp, is_max, node, default=None, has_default=False):
             acc = pair_minmax(ex, st, acc, v, is_max, node)
         return acc
     if sp.keep is not None:
-        raise Unsupported("min/max of filtered symbolic sequence")
+        # extremum of the elements that pass the filter; raises ValueError when there is none
+        from .counting import make_nonempty
+
+        ne = sp.nonempty if sp.nonempty is not None else make_nonempty(ex, st, sp.n, sp.keep)
+        if has_default:
+            raise Unsupported("min/max default over filtered sequence (use minmax_filtered)")
+        ex.need(st, ne, "ValueError", node)
+        kk = z3.Int(fresh_name("k"))
+        ek2 = sp.elem(kk)
+        if isinstance(ek2, SV):
+            ex.ctx.oblige(st, "noraise:TypeError", f"min/max element @ {ast.unparse(node)[:50]}",
+                          z3.Implies(z3.And(kk >= 0, kk < sp.n, zbool(sp.keep(kk))), vals.v_is_numlike(ek2.t)), node)
+        m = z3.Real(fresh_name("ext"))
+        w = z3.Int(fresh_name("w"))
+        st.inst_terms.append(("term", w))
+        st.assume(z3.And(w >= 0, w < sp.n, zbool(sp.keep(w)), m == to_real_term(sp.elem(w))))
+        rel = (lambda a, b: a >= b) if is_max else (lambda a, b: a <= b)
+        st.qassumes.append(QAssume(lambda j: z3.Implies(z3.And(j >= 0, j < sp.n, zbool(sp.keep(j))), rel(m, to_real_term(sp.elem(j)))), "filtered-extremum-bounds-all"))
+        return SNum(m, z3.Bool(fresh_name("ext.isf")))
     k = z3.Int(fresh_name("k"))
     rng = z3.And(k >= 0, k < sp.n)
     ek = sp.elem(k)
